@@ -496,6 +496,8 @@ def r13_9(run):
             elif callee_attr(n.value) == 'split' and isinstance(n.targets[0], ast.Name):
                 parts.add(n.targets[0].id)
 
+    assuming = set()
+
     def implies(e, depth=0):
         """truth of e implies that the line contains '=' (three-valued: True / False)"""
         if isinstance(e, ast.Constant):
@@ -519,9 +521,23 @@ def r13_9(run):
         if isinstance(e, ast.Name):
             if e.id in seps:
                 return True
+            if e.id in assuming:
+                return True         # (a flag refined under a test of itself: its earlier value already implied the "=")
             ds = [d for d in defs.get(e.id, []) if d[0] == 'expr']
             if depth < 3 and ds and len(ds) == len(defs.get(e.id, [])):
-                return all(implies(d[1], depth + 1) for d in ds)
+                assuming.add(e.id)
+                try:
+                    for n_ in g.real_nodes():
+                        if n_.kind == 'stmt' and isinstance(n_.ast, ast.Assign) and assign_to(n_.ast, e.id) is not None:
+                            v_ = assign_to(n_.ast, e.id)
+                            if implies(v_, depth + 1):
+                                continue
+                            if any((lab == 'T' and implies(t.ast, depth + 1)) or (lab == 'F' and refutes(t.ast)) for t, lab in g.guarded_by(n_, lambda t_: True)):
+                                continue
+                            return False
+                    return True
+                finally:
+                    assuming.discard(e.id)
         return False
 
     def refutes(e):
